@@ -52,7 +52,7 @@ DOC_CASES = [
 
 def budget(tier: str) -> dict[str, Any]:
     if tier == "quick":
-        return {"shards": 8, "cases": 250}
+        return {"shards": 8, "cases": 1000}
     return {"shards": 32, "cases": 4000, "hashseeds": [0, 1, 2, 3]}
 
 
